@@ -309,18 +309,18 @@ func (v *variantVotes) vote(fixed bool, ex string) {
 // ---------------------------------------------------------------- behavioural tie / monitor
 
 type job struct {
-	Prog    string   `json:"program"`
-	Text    string   `json:"model_text"`
-	Wasm    string   `json:"wasm_hex"`
-	Entry   string   `json:"entry"`
-	Arg     uint64   `json:"arg"`
-	HostCB  []int    `json:"host_cb"`
-	Engine  string   `json:"engine"`
-	Cause   string   `json:"cause"` // cancel | deadline | close
-	Code    uint32   `json:"code"`
-	Timing  string   `json:"timing"` // before | during | host
-	DelayUs int      `json:"delay_us"`
-	XMod    bool     `json:"xmod,omitempty"` // cross-module scenario: the entry module imports the looping one
+	Prog    string `json:"program"`
+	Text    string `json:"model_text"`
+	Wasm    string `json:"wasm_hex"`
+	Entry   string `json:"entry"`
+	Arg     uint64 `json:"arg"`
+	HostCB  []int  `json:"host_cb"`
+	Engine  string `json:"engine"`
+	Cause   string `json:"cause"` // cancel | deadline | close
+	Code    uint32 `json:"code"`
+	Timing  string `json:"timing"` // before | during | host
+	DelayUs int    `json:"delay_us"`
+	XMod    bool   `json:"xmod,omitempty"` // cross-module scenario: the entry module imports the looping one
 	// AppCause: the context is cancelled / times out with an application-level cause (context.WithCancelCause,
 	// WithDeadlineCause) and the call is made on a context DERIVED from it: ctx.Err() is still Canceled /
 	// DeadlineExceeded, which is what the documented exit codes are defined by.
@@ -329,11 +329,29 @@ type job struct {
 	// InnerCtx: the call the embedder makes gets a context that is never done; the context that is cancelled / times out
 	// is one a HOST CALLBACK creates for the call it makes back into the guest (every call, at any nesting depth,
 	// is "an in-flight call with its context").  Inconclusive when no such inner call is in flight once the cause fired.
-	InnerCtx bool `json:"inner_ctx,omitempty"`
-	Mods    []string `json:"mods,omitempty"`
+	InnerCtx bool     `json:"inner_ctx,omitempty"`
+	Mods     []string `json:"mods,omitempty"`
+	// Compile: how the guest's code came to be: "" = compiled by this runtime; "cache" = a compilation-cache directory
+	// warmed by an EARLIER runtime with the same options, so that this runtime restores the module from the cache;
+	// "listener" = compiled with a (no-op) function listener factory in the context; "cache+listener" = both.  What the
+	// option promises must not depend on the path by which the machine code and its per-module state were obtained.
+	Compile string `json:"compile,omitempty"`
 }
 
 type innerKey struct{}
+
+type nopListenerFactory struct{}
+
+func (nopListenerFactory) NewFunctionListener(api.FunctionDefinition) experimental.FunctionListener {
+	return nopListener{}
+}
+
+type nopListener struct{}
+
+func (nopListener) Before(context.Context, api.Module, api.FunctionDefinition, []uint64, experimental.StackIterator) {
+}
+func (nopListener) After(context.Context, api.Module, api.FunctionDefinition, []uint64) {}
+func (nopListener) Abort(context.Context, api.Module, api.FunctionDefinition, error)    {}
 
 type result struct {
 	Returned    bool    `json:"returned"`
@@ -373,6 +391,39 @@ func runChild(path string) {
 		rc = wazero.NewRuntimeConfigInterpreter()
 	}
 	rc = rc.WithCoreFeatures(features()).WithCloseOnContextDone(true)
+	compileCtx := bg
+	if strings.Contains(j.Compile, "listener") {
+		compileCtx = experimental.WithFunctionListenerFactory(bg, nopListenerFactory{})
+	}
+	if strings.Contains(j.Compile, "cache") {
+		dir, err := os.MkdirTemp(filepath.Dir(path), "c07-cache-")
+		if err != nil {
+			fmt.Println(`{"setup_error":"cache dir"}`)
+			os.Exit(3)
+		}
+		defer os.RemoveAll(dir)
+		warm, err := wazero.NewCompilationCacheWithDir(dir)
+		if err != nil {
+			fmt.Println(`{"setup_error":"cache"}`)
+			os.Exit(3)
+		}
+		rt0 := wazero.NewRuntimeWithConfig(bg, rc.WithCompilationCache(warm))
+		for _, mh := range append(append([]string{}, j.Mods...), j.Wasm) {
+			b, _ := hex.DecodeString(mh)
+			if _, err := rt0.CompileModule(compileCtx, b); err != nil {
+				fmt.Println(`{"setup_error":"warming the cache"}`)
+				os.Exit(3)
+			}
+		}
+		rt0.Close(bg)
+		warm.Close(bg)
+		again, err := wazero.NewCompilationCacheWithDir(dir)
+		if err != nil {
+			fmt.Println(`{"setup_error":"cache"}`)
+			os.Exit(3)
+		}
+		rc = rc.WithCompilationCache(again)
+	}
 	rt := wazero.NewRuntimeWithConfig(bg, rc)
 
 	var (
@@ -466,14 +517,14 @@ func runChild(path string) {
 	}
 	for i, mh := range j.Mods { // cross-module scenario: extra modules instantiated first, named m0, m1, ...
 		b, _ := hex.DecodeString(mh)
-		if _, err := rt.InstantiateWithConfig(bg, b, wazero.NewModuleConfig().WithName(fmt.Sprintf("m%d", i))); err != nil {
+		if _, err := rt.InstantiateWithConfig(compileCtx, b, wazero.NewModuleConfig().WithName(fmt.Sprintf("m%d", i))); err != nil {
 			res.Setup = "extra module: " + err.Error()
 			out()
 			os.Exit(3)
 		}
 	}
 	bin, _ := hex.DecodeString(j.Wasm)
-	mod, err = rt.InstantiateWithConfig(bg, bin, wazero.NewModuleConfig().WithName("guest"))
+	mod, err = rt.InstantiateWithConfig(compileCtx, bin, wazero.NewModuleConfig().WithName("guest"))
 	if err != nil {
 		res.Setup = "instantiate: " + err.Error()
 		out()
@@ -970,6 +1021,24 @@ func main() {
 			}
 		}
 	}
+	// the path by which the code was obtained: restored from a compilation cache another runtime filled, compiled with
+	// function listeners, and both (per-module state such as "this module was compiled with termination checks" is
+	// restored on a cache hit by code of its own)
+	for _, kind := range []string{"loop-br", "loop-in-callee", "tail-self"} {
+		p := g.Make(kind)
+		pred := predict(p)
+		for _, eng := range []string{"interpreter", "compiler"} {
+			for ci, comp := range []string{"cache", "listener", "cache+listener"} {
+				if eng == "interpreter" && comp != "listener" && !hx.Thorough() {
+					continue // (the interpreter has no file cache: the option is accepted and ignored)
+				}
+				cause := causes[(ci+len(kind))%len(causes)]
+				j := job{Prog: p.Name + "/" + comp, Text: p.Text, Wasm: hex.EncodeToString(p.Bytes()), Entry: fmt.Sprintf("f%d", p.Entry), Arg: p.Arg, HostCB: p.HostCB,
+					Engine: eng, Cause: cause, Timing: "during", DelayUs: 25000, Code: 7, Compile: comp}
+				plan = append(plan, planned{j, p, pred, false})
+			}
+		}
+	}
 	// blocked, not looping: the guest sits in memory.atomic.wait32 on its own shared memory (nobody notifies).
 	// "Whatever the guest is doing" includes this: no cycle is involved, so no exit-code check is ever reached;
 	// only the wait itself could notice the cause.
@@ -1034,7 +1103,8 @@ func main() {
 }
 
 // blockedWaitModule: (memory 1 1 shared) (func (export "f0") (param i32)
-//   (drop (memory.atomic.wait32 (i32.const 0) (i32.const 0) (i64.const timeout))))
+//
+//	(drop (memory.atomic.wait32 (i32.const 0) (i32.const 0) (i64.const timeout))))
 func blockedWaitModule(timeout int64) []byte {
 	m := wb.New()
 	one := uint32(1)
